@@ -70,7 +70,61 @@ def one(rng, system):
                 nontrivial=n > 2, tags=["disc"] if disc else [])
 
 
+def cli_case(rng):
+    """`treetools transitions SRC DEST T --transform ... [--dest-opts pos]`: one line per tree, sentence ||| transitions"""
+    import io
+    system = rng.choice(["topdown", "inorder", "gap"])
+    k = rng.randint(1, 3)
+    text = ""
+    ts = []
+    for i in range(k):
+        cfg = treegen.Cfg(n_min=1, n_max=7, disc=(system == "gap"), p_disc=0.5, p_unary=0.2, p_punct=0.0, none_fields=False,
+                          labels=treegen.PLAIN_LABELS, words=["a", "b", "Haus", "der"], max_arity=4, edges=["HD", "NK", "--"])
+        t = treegen.gen_tree(rng, cfg)
+        t.data['sid'] = i + 1
+        s = io.StringIO()
+        from impl import treeoutput
+        c = clone(t)
+        c.data['sid'] = i + 1
+        treeoutput.export(c, s)
+        text += s.getvalue()
+        ts.append(t)
+    pos = rng.random() < 0.5
+    trans = ["negra_mark_heads"] + ([] if system == "inorder" else ["binarize"])
+    lines = []
+    with cli.Scratch() as sc:
+        src = sc.write("src.export", text)
+        rc, _, err = cli.run_cli(["transitions", src, sc.path("out"), system, "--transform"] + trans + (["--dest-opts", "pos"] if pos else []))
+        if rc != 0:
+            l = Line("pred", "P.C10", [system, proto.enc_tree(ts[0]), ""], note="command failed: " + err[-300:])
+            l.expect = "command-must-succeed"
+            return Case("cli:" + system, {"text": text}, [l], nontrivial=True)
+        out = sc.read("out").split("\n")
+        if out and out[-1] == "":
+            out.pop()
+    if len(out) != k:
+        l = Line("pred", "P.C10", [system, proto.enc_tree(ts[0]), ""], note="%d lines for %d trees" % (len(out), k))
+        l.expect = "one-line-per-tree"
+        return Case("cli:" + system, {"text": text}, [l], nontrivial=True)
+    for t, line in zip(ts, out):
+        # the same tree through the API (reader-equivalent content: export round trip keeps all fields)
+        calls = [(n, {}) for n in trans]
+        _, _, b = tx.run_impl(calls, tx.fresh(t, 1))
+        a = proto.enc_tree(b)
+        with quiet():
+            sent, tr = getattr(transitions, system)(b)
+        lines.append(Line("corr", "plain_line", ["t" if pos else "f", a, enc_acts(tr)], proto.enc_s(line)))
+        parts = line.split(" ||| ")
+        acts = ",".join(proto.enc_s(x) for x in parts[1].split(" ")) if len(parts) == 2 and parts[1] else ""
+        lines.append(Line("pred", "P.C10", [system, a, acts]))
+    return Case("cli:" + system, {"text": text, "pos": pos}, lines, nontrivial=True)
+
+
 def gen(seed, tier, scale):
+    ncli = (16 if tier == "quick" else 300) * scale
+    rngs = [case_rng(seed, ID, 500000 + i) for i in range(ncli)]
+    for i, r in enumerate(rngs):          # sequential: the case uses in-process stdout redirection
+        yield 500000 + i, cli_case(r)
     idx = 0
     for _ in range((3000 if tier == "quick" else 60000) * scale):
         rng = case_rng(seed, ID, idx)
